@@ -101,23 +101,31 @@ Definition judge (idx : Z) (S : schema) (root : list Z) (m : pmsg) (prev : list 
 
 Definition first_nonok (a b : verdict) : verdict := match a with VOk => b | _ => a end.
 
-Fixpoint run_1001 (n : nat) (idx : Z) (S : schema) (root : list Z) (md : mdesc) (m : pmsg) (prev : list Z)
+(* Buffers are VALUES in the model: an operation yields new bytes and cannot change bytes that were handed out before.
+   So after every operation (successful, failed, or deviating in a recorded way) the caller's input slice and a second
+   root value made over it still hold the original bytes b0, and the slice the value held before the operation still
+   holds prev. *)
+Definition immutable_ok (b0 prev inp wit ali : list Z) : bool :=
+  bytes_eqb inp b0 && bytes_eqb wit b0 && bytes_eqb ali prev.
+
+Fixpoint run_1001 (n : nat) (idx : Z) (b0 : list Z) (S : schema) (root : list Z) (md : mdesc) (m : pmsg) (prev : list Z)
                   (fs : list field) : verdict :=
   match n with
   | O => match fs with [] => VOk | _ => VBad 97 [] end
   | Datatypes.S n' =>
     let continue (v : verdict * option (pmsg * list Z)) (rest : list field) :=
       match v with
-      | (VOk, Some (m', prev')) => run_1001 n' (idx + 1) S root md m' prev' rest
-      | (VDrift c, Some (m', prev')) => match run_1001 n' (idx + 1) S root md m' prev' rest with VOk => VDrift c | o => o end
-      | (VKnown id, Some (m', prev')) => first_nonok (VKnown id) (match run_1001 n' (idx + 1) S root md m' prev' rest with
+      | (VOk, Some (m', prev')) => run_1001 n' (idx + 1) b0 S root md m' prev' rest
+      | (VDrift c, Some (m', prev')) => match run_1001 n' (idx + 1) b0 S root md m' prev' rest with VOk => VDrift c | o => o end
+      | (VKnown id, Some (m', prev')) => first_nonok (VKnown id) (match run_1001 n' (idx + 1) b0 S root md m' prev' rest with
                                                                   | VBad c d => VBad c d | _ => VKnown id end)
       | (o, _) => o
       end in
     match fs with
     | FZ 1 :: r =>
       match parse_path10 r with
-      | Some (p, FB sub :: FZ err :: FZ ex :: FB res :: FZ acc :: rest) =>
+      | Some (p, FB sub :: FZ err :: FZ ex :: FB res :: FZ acc :: FB inp :: FB wit :: FB ali :: rest) =>
+        if negb (immutable_ok b0 prev inp wit ali) then VBad (400 + idx) [FB b0; FB prev] else
         match path_type_lax S LSingular (TMsg root) p with
         | Some (LSingular, t) =>
           match decode_elem S t sub with
@@ -130,14 +138,16 @@ Fixpoint run_1001 (n : nat) (idx : Z) (S : schema) (root : list Z) (md : mdesc) 
       end
     | FZ 2 :: r =>
       match parse_path10 r with
-      | Some (p, FZ err :: FZ ex :: FB res :: FZ acc :: rest) =>
+      | Some (p, FZ err :: FZ ex :: FB res :: FZ acc :: FB inp :: FB wit :: FB ali :: rest) =>
+        if negb (immutable_ok b0 prev inp wit ali) then VBad (400 + idx) [FB b0; FB prev] else
         continue (judge idx S root m prev (OUnset p) (CUnset p) err ex res acc) rest
       | _ => VBad 96 []
       end
     | FZ 3 :: FZ k :: r =>
       if negb (count_ok k) then VBad 96 [] else
       match parse_many (Z.to_nat k) r with
-      | Some (l, FZ err :: FZ ex :: FB res :: FZ acc :: rest) =>
+      | Some (l, FZ err :: FZ ex :: FB res :: FZ acc :: FB inp :: FB wit :: FB ali :: rest) =>
+        if negb (immutable_ok b0 prev inp wit ali) then VBad (400 + idx) [FB b0; FB prev] else
         match many_vals S md l with
         | Some xs => continue (judge idx S root m prev (OSetMany xs) (CSetMany l) err ex res acc) rest
         | None => VSkip
@@ -155,7 +165,7 @@ Definition check_1001 (fs : list field) : verdict :=
     | Some md, Some m0 =>
       if negb (wf_msg sc root m0) then VSkip
       else if (nops <? 0) || (nops >? 1000) then VBad 99 []
-      else run_1001 (Z.to_nat nops) 0 sc root md m0 b0 rest
+      else run_1001 (Z.to_nat nops) 0 b0 sc root md m0 b0 rest
     | _, _ => VSkip
     end
   | _ => VBad 99 []
